@@ -55,6 +55,7 @@ type Engine struct {
 	models          map[string]*model
 	extraOverlay    map[string]string // path -> replacement file (self-test mutations)
 	curProp         string            // property being checked in this run
+	misfits         []*Contract       // contracts whose clauses no longer type-check against the code
 	constGlobals    map[*ssa.Global]*ssa.Const
 }
 
@@ -110,21 +111,89 @@ func (eng *Engine) load(mirror string, patterns []string) error {
 	}
 	cfg := &packages.Config{Mode: packages.LoadAllSyntax, Dir: eng.repo, BuildFlags: []string{"-tags=verif"}, Overlay: overlay,
 		Env: append(os.Environ(), "GOFLAGS=-mod=mod", "GOPROXY=off", "GOSUMDB=off", "GOTOOLCHAIN=local")}
-	pkgs, err := packages.Load(cfg, patterns...)
-	if err != nil {
-		return err
-	}
-	nerr := 0
-	packages.Visit(pkgs, nil, func(p *packages.Package) {
-		for _, e := range p.Errors {
-			if strings.HasPrefix(p.PkgPath, modulePath) {
-				fmt.Fprintf(os.Stderr, "load error: %s: %v\n", p.PkgPath, e)
-				nerr++
-			}
+	var pkgs []*packages.Package
+	for attempt := 0; ; attempt++ {
+		pkgs, err = packages.Load(cfg, patterns...)
+		if err != nil {
+			return err
 		}
-	})
-	if nerr > 0 {
-		return fmt.Errorf("%d load errors (the tree does not compile with the contracts)", nerr)
+		nerr := 0
+		// errors inside an elaborated contract file: the contract no longer fits
+		// the code (e.g. the function's signature changed). Such a contract is
+		// set aside and reported as an obligation that cannot be established; the
+		// rest of the check still runs.
+		badLines := map[string]map[int]bool{} // rel dir -> lines of the elaborated file
+		other := 0
+		packages.Visit(pkgs, nil, func(p *packages.Package) {
+			for _, e := range p.Errors {
+				if !strings.HasPrefix(p.PkgPath, modulePath) {
+					continue
+				}
+				nerr++
+				pos := e.Pos
+				if i := strings.Index(pos, elabFile+":"); i >= 0 {
+					dir, _ := filepath.Rel(eng.repo, filepath.Dir(pos[:i+len(elabFile)]))
+					var line int
+					fmt.Sscanf(pos[i+len(elabFile)+1:], "%d", &line)
+					if badLines[dir] == nil {
+						badLines[dir] = map[int]bool{}
+					}
+					badLines[dir][line] = true
+				} else {
+					other++
+					fmt.Fprintf(os.Stderr, "load error: %s: %v\n", p.PkgPath, e)
+				}
+			}
+		})
+		if nerr == 0 {
+			break
+		}
+		if other > 0 || attempt >= 3 || len(badLines) == 0 {
+			return fmt.Errorf("%d load errors (the tree does not compile with the contracts)", nerr)
+		}
+		dropped := 0
+		for dir, lines := range badLines {
+			ps := specs[dir]
+			if ps == nil {
+				continue
+			}
+			srcLines := strings.Split(eng.elabSrc[dir], "\n")
+			badIDs := map[string]bool{}
+			for ln := range lines {
+				// the enclosing generated function is named verif_<contract id>_...
+				for k := ln - 1; k >= 0 && k < len(srcLines); k-- {
+					if strings.HasPrefix(srcLines[k], "func verif_c") {
+						name := strings.TrimPrefix(srcLines[k], "func verif_")
+						if j := strings.IndexByte(name, '_'); j > 0 {
+							badIDs[name[:j]] = true
+						}
+						break
+					}
+					if strings.HasPrefix(srcLines[k], "func ") {
+						break
+					}
+				}
+			}
+			var keep []*Contract
+			for _, c := range ps.contracts {
+				if badIDs[c.ID] {
+					eng.misfits = append(eng.misfits, c)
+					dropped++
+					continue
+				}
+				keep = append(keep, c)
+			}
+			ps.contracts = keep
+			src, err := elaborate(eng.repo, ps)
+			if err != nil {
+				return err
+			}
+			eng.elabSrc[dir] = src
+			overlay[filepath.Join(eng.repo, dir, elabFile)] = []byte(src)
+		}
+		if dropped == 0 {
+			return fmt.Errorf("%d load errors in specification code (the tree does not compile with the contracts)", nerr)
+		}
 	}
 	prog, _ := ssautil.AllPackages(pkgs, ssa.GlobalDebug|ssa.InstantiateGenerics)
 	prog.Build()
